@@ -48,6 +48,8 @@ func runC11(c *Ctx) {
 	r.Advise("Element.key/value are read by ForEach/ForEachReverse after the lock is released and written by Set under the lock: outside C11's statement (no race-freedom claim for values), not checked")
 
 	checkOrderedMapCoupling(r, p)
+	// Set.Iterator hands the elements to a Walker: its push bookkeeping is part of what the Set promises
+	checkWalkerBulk(r, p)
 	checkSetProtocol(r, p)
 	checkSetArithmetic(r, p)
 	checkSerializableOrderedMap(r, p)
@@ -61,6 +63,82 @@ func checkOrderedMapCoupling(r *Reporter, p *Prog) {
 		return
 	}
 	info := pk.TypesInfo
+	// Clear empties the map: every field that Set or Delete maintains (assigns, or mutates through a
+	// method of its value) is given a new value by Clear - helpers spliced in. A field that an
+	// operation keeps up to date and Clear forgets (a cached element, a counter) still describes the
+	// old contents afterwards.
+	{
+		const rule = "omap/clear-resets-maintained-state"
+		_, st := p.NamedStruct(om, "OrderedMap")
+		fieldsWritten := func(fd *ast.FuncDecl) map[string]bool {
+			out := map[string]bool{}
+			if fd == nil || fd.Body == nil {
+				return out
+			}
+			f := newFuncCFG(p, info, fd.Body, om+".OrderedMap."+fd.Name.Name)
+			self := recvObj(info, fd)
+			selves := f.selfAliases(self)
+			isOwnField := func(e ast.Expr) (string, bool) {
+				se, ok := ast.Unparen(e).(*ast.SelectorExpr)
+				if !ok || !selves[objOfIdent(info, se.X)] {
+					return "", false
+				}
+				if sel := info.Selections[se]; sel != nil && sel.Kind() == types.FieldVal {
+					return se.Sel.Name, true
+				}
+				return "", false
+			}
+			for _, b := range f.G.Blocks {
+				if !b.Live {
+					continue
+				}
+				for _, nd := range b.Nodes {
+					inspectNoLit(nd, func(n ast.Node) bool {
+						switch x := n.(type) {
+						case *ast.AssignStmt:
+							for _, l := range x.Lhs {
+								if fn, ok := isOwnField(l); ok {
+									out[fn] = true
+								}
+							}
+						case *ast.IncDecStmt:
+							if fn, ok := isOwnField(x.X); ok {
+								out[fn] = true
+							}
+						}
+						return true
+					})
+				}
+			}
+			return out
+		}
+		if st == nil {
+			r.Unresolved(rule, om+".OrderedMap", "struct not found")
+		} else {
+			maintained := map[string]bool{}
+			for _, m := range []string{"Set", "Delete"} {
+				for k := range fieldsWritten(p.FuncDecl(om, "OrderedMap", m)) {
+					maintained[k] = true
+				}
+			}
+			cleared := fieldsWritten(p.FuncDecl(om, "OrderedMap", "Clear"))
+			var missing []string
+			for k := range maintained {
+				if !cleared[k] {
+					missing = append(missing, k)
+				}
+			}
+			sort.Strings(missing)
+			switch {
+			case len(maintained) < 3 || len(cleared) == 0:
+				r.Fail(rule, om+".OrderedMap.Clear", "-", fmt.Sprintf("expected Set/Delete to maintain head, tail and size and Clear to assign fields (found %d / %d) (vacuous)", len(maintained), len(cleared)))
+			case len(missing) > 0:
+				r.Fail(rule, om+".OrderedMap.Clear", "-", "Set/Delete maintain the field(s) "+strings.Join(missing, ", ")+" which Clear does not reset: after Clear they still describe the old contents (a stale cached element answers for a key that is no longer in the map)")
+			default:
+				r.Pass(rule, om+".OrderedMap.Clear", "-", fmt.Sprintf("%d field(s) assigned by Set/Delete, all reset by Clear", len(maintained)))
+			}
+		}
+	}
 	// stores are matched on resolved operands (curF: the operation's graph with its helpers - also
 	// link/unlink primitives of the element type - in place), so `predecessor.next = e` inside
 	// linkAfter(o.tail) is the store `o.tail.next = <new element>`
